@@ -90,6 +90,8 @@ type G struct {
 	singles []hs.Singleton
 	hasEvent bool
 	inExpr  int // >0 while generating statements of a block that is an operand of an expression
+	inLambda int            // >0 while generating the body of a function literal
+	shadowFn map[string]int // functions whose name is currently taken by a local (see callExpr)
 }
 
 func (g *G) feat(s string) { g.Feat[s]++ }
@@ -788,7 +790,8 @@ func (g *G) rangeExpr(d int) hs.Expr {
 func (g *G) callExpr(t hs.Type, d int) (hs.Expr, bool) {
 	var cands []fnInfo
 	for _, f := range g.fns {
-		if f.ret.Equal(t) {
+		// inside a function literal a name that an enclosing local has taken would be a captured variable
+		if f.ret.Equal(t) && !(g.inLambda > 0 && g.shadowFn[f.name] > 0) {
 			cands = append(cands, f)
 		}
 	}
@@ -797,6 +800,25 @@ func (g *G) callExpr(t hs.Type, d int) (hs.Expr, bool) {
 	}
 	f := cands[g.pick("callee", len(cands))]
 	c := hs.Call{Fn: hs.Ident{Name: f.name, T: hs.TFn(f.ret, f.params...)}, T: t}
+	// decide first whether a local takes the function's name, so that function literals among the arguments know
+	shadowBy := ""
+	asValue := !g.c.Pure && !f.single && !g.c.off("fn-value") && g.inLambda == 0 && g.chance("fnValue", 20)
+	if asValue {
+		ft := hs.TFn(f.ret, f.params...)
+		for _, o := range g.fns {
+			if o.name != f.name && !o.single && !o.rec && o.name != g.inFn && g.shadowFn[o.name] == 0 && g.shadowFn[f.name] == 0 && hs.TFn(o.ret, o.params...).Equal(ft) && g.chance("shadowFn", 50) {
+				shadowBy = o.name
+				break
+			}
+		}
+	}
+	if shadowBy != "" {
+		if g.shadowFn == nil {
+			g.shadowFn = map[string]int{}
+		}
+		g.shadowFn[f.name]++
+		defer func() { g.shadowFn[f.name]-- }()
+	}
 	for i, p := range f.params {
 		if i == 0 && f.rec {
 			c.Args = append(c.Args, g.smallInt(0, 4))
@@ -806,13 +828,19 @@ func (g *G) callExpr(t hs.Type, d int) (hs.Expr, bool) {
 		c.Args = append(c.Args, g.expr(p, d-1))
 	}
 	g.feat("call")
-	if !g.c.Pure && !f.single && !g.c.off("fn-value") && g.chance("fnValue", 20) {
+	if asValue {
 		// the function travels as a value: ({ let h = f; h(args) })
 		h := g.fresh("h")
 		ft := hs.TFn(f.ret, f.params...)
+		src := f.name
+		// a local that is NAMED like one function and holds another one of the same type: the call goes to the local
+		if shadowBy != "" {
+			h, src = f.name, shadowBy
+			g.feat("fn-value-shadows-function")
+		}
 		c.Fn = hs.Ident{Name: h, T: ft}
 		g.feat("fn-value-call")
-		return &hs.Block{T: t, Stmts: []hs.Stmt{hs.Let{Name: h, X: hs.Ident{Name: f.name, T: ft}}}, Tail: c}, true
+		return &hs.Block{T: t, Stmts: []hs.Stmt{hs.Let{Name: h, X: hs.Ident{Name: src, T: ft}}}, Tail: c}, true
 	}
 	return c, true
 }
@@ -995,7 +1023,9 @@ func (g *G) lambdaCall(t hs.Type, d int) hs.Expr {
 	g.scopes = [][]varInfo{glob, {{name: pname, t: pt}}}
 	savedLoop, savedRet, savedIn := g.inLoop, g.retT, g.inExpr
 	g.inLoop, g.retT, g.inExpr = 0, nil, 0
+	g.inLambda++
 	body := &hs.Block{T: t, Tail: g.expr(t, d-1)}
+	g.inLambda--
 	g.scopes, g.inLoop, g.retT, g.inExpr = saved, savedLoop, savedRet, savedIn
 	lam := &hs.FnLit{Params: []hs.Param{{Name: pname, T: pt}}, Ret: t, Body: body}
 	g.feat("lambda")
